@@ -303,7 +303,7 @@ def handle (req : Sexp) : Sexp :=
             | _, _ => false
           -- text level (Props/C06k parse_printed_property): the decidable hypotheses, and that the text is `RawProperty.chars` of its own tree
           okS [Sexp.ofBool (r.printable fmt), Sexp.ofBool toksEq, Sexp.ofBool back, Sexp.ofBool (r.lexOkB fmt),
-               Sexp.ofBool (String.ofList (r.chars fmt) == text)]
+               .str (String.ofList (r.chars fmt))]
     else errS "protocol" "rtcheck entry"
   | .list [.atom "printany", x] =>
     let fmt : Rat → String := fun q => match floatRepr q with | some s => s | none => "<float>"
